@@ -620,6 +620,8 @@ func checkC10(p *Prog, res *Result, tier string) {
 	// ---- R5: the bounds of partitioned scans enclose exactly the records of the keys they split (C13-R5) ----
 	sub13 := newResult("C13")
 	checkBorderContiguity(p, r, sub13, p.ssaPkg("pkg/backend/scanner"))
+	// .. and the advertised partition list covers the requested range with realigned borders (C13-R9)
+	checkAdvertisedBorders(p, r, sub13, "C13-R9")
 	for _, o := range sub13.Obls {
 		res.add("C10-R5", o.Rule+" "+o.Construct, o.Status, o.Pos, o.Detail)
 	}
